@@ -258,6 +258,11 @@ pub fn run(tier: Tier, args: &[String]) -> i32 {
     // life of a subscription (items, consumer ends by itself or is aborted, late item answered
     // FinishedMany) followed by requests that reuse its id and their answers
     let deep_menu = vec![0usize, 1, 2, 10];
+    // second reduced case: steps whose OUTPUT cannot be serialized (a batch with an operation
+    // whose Serialize fails, alone or after an ordinary request; a model state whose view
+    // fails) followed by ordinary steps - every later step's bytes must be exactly that
+    // step's output
+    let fail_menu = vec![0usize, 11, 12, 13];
     let deep_depth = mc_kit::arg_value(args, "--deep-depth")
         .and_then(|s| s.parse().ok())
         .unwrap_or(tier.pick(6, 7));
@@ -265,10 +270,12 @@ pub fn run(tier: Tier, args: &[String]) -> i32 {
         Tier::Quick => vec![
             (depth, max_out, true, Some(crate::app::main_menu())),
             (deep_depth, usize::MAX, true, Some(deep_menu)),
+            (5, usize::MAX, true, Some(fail_menu)),
         ],
         Tier::Thorough => vec![
             (depth.saturating_sub(1).max(1), usize::MAX, true, Some(crate::app::main_menu())),
             (deep_depth, usize::MAX, true, Some(deep_menu)),
+            (6, usize::MAX, true, Some(fail_menu)),
             (depth, max_out, false, Some(crate::app::main_menu())),
         ],
     };
@@ -277,6 +284,8 @@ pub fn run(tier: Tier, args: &[String]) -> i32 {
     let deadline_all = Deadline::new(limit);
     let mut all_completed = true;
     let mut reduced_nodes = 0u64;
+    let mut undelivered_entries = 0u64;
+    let mut serialize_outcomes: std::collections::BTreeMap<String, u64> = Default::default();
     for (d, mo, garbage, menu) in plan_full.iter().cloned() {
         if deadline_all.expired() {
             all_completed = false;
@@ -306,7 +315,13 @@ pub fn run(tier: Tier, args: &[String]) -> i32 {
                           "wall_s_so_far": rep.elapsed()}));
         if reduced {
             // a sub-alphabet of the full tree: listed under `runs`, not added to the counts
-            reduced_nodes = st.nodes;
+            reduced_nodes += st.nodes;
+            undelivered_entries += st.undelivered_entries;
+            for (k, v) in &st.outcomes {
+                if k.contains("Serialize") {
+                    *serialize_outcomes.entry(k.clone()).or_default() += v;
+                }
+            }
             continue;
         }
         if !st.cut_by_deadline {
@@ -330,6 +345,45 @@ pub fn run(tier: Tier, args: &[String]) -> i32 {
                "steps": r.steps.len(), "max_outstanding": r.max_outstanding, "ids_reused": r.ids_reused,
                "burst_answers_delivered": r.burst_answers, "clean": r.failed.is_none()})
     });
+    // cross-instance: state private to a thread must not leak from one bridge to the next one
+    // created on that thread. History A (with a step whose output cannot be serialized) on
+    // system 1, then - same thread - a short ordinary history on a brand-new system 2.
+    let mut cross = vec![];
+    for a in [
+        vec![Step::Ev(11)],
+        vec![Step::Ev(12)],
+        vec![Step::Ev(0), Step::Ev(11), Step::Resp(0)],
+        vec![Step::Ev(13)],
+        vec![Step::Ev(1), Step::Ev(13), Step::Resp(0), Step::Ev(13)],
+    ] {
+        let b = vec![Step::Ev(1), Step::Resp(1), Step::Ev(0), Step::Resp(1), Step::Resp(0), Step::Ev(4)];
+        let (mut s1, f1) = replay(&LANES, &a, 0, false);
+        let left: Vec<_> = s1.lanes.iter().map(|l| (l.kind.name(), l.undelivered)).collect();
+        let _ = s1.check_state();
+        if let Some((i, f)) = f1 {
+            use crate::explore::Visitor;
+            v.report(&a, i, &f);
+        }
+        // system 1 stays alive while system 2 runs
+        let (_s2, f2) = replay(&LANES, &b, 0, false);
+        if let Some((i, f)) = &f2 {
+            for x in f {
+                rep.violation(Violation {
+                    key: format!("cross-instance/{}", x.key),
+                    what: format!(
+                        "a NEW bridge, created on the thread that ran [{}] on another bridge, fails [{}] at step {i}: {}",
+                        show_steps(&a), show_steps(&b), x.what
+                    ),
+                    replay: json!({"engine": "bridgex-cross-instance", "first": a, "steps": b}),
+                    size: a.len() + b.len(),
+                });
+            }
+        }
+        drop(s1);
+        cross.push(json!({"history_on_instance_1": show_steps(&a), "history_on_instance_2": show_steps(&b),
+                          "registry_entries_left_on_instance_1 (never, once, many)": left.iter().map(|(n, u)| json!({"lane": n, "entries": u})).collect::<Vec<_>>(),
+                          "clean": f2.is_none()}));
+    }
     let scale_steps: u64 = scale_runs.iter().map(|r| r["steps"].as_u64().unwrap_or(0)).sum();
     let scale_wall = rep.elapsed() - scale_t0;
     if total.nontrivial < 2 {
@@ -344,6 +398,14 @@ pub fn run(tier: Tier, args: &[String]) -> i32 {
         "transitions": total.nodes.saturating_sub(1),
         "steps_executed_including_prefix_replays": total.steps_executed,
         "reduced_menu_deep_run_nodes (also compared with the twin, not included in states)": reduced_nodes,
+        "unserializable_output": {
+            "what": "menu events FailTwo ([ordinary request, request whose operation's Serialize fails] in one batch), FailOne (that request alone) and FussyView (toggles a model state whose view's Serialize fails) in a reduced-menu run {Single, FailTwo, FailOne, FussyView} + answers + the undecodable step, depth 5 (quick) / 6 (thorough)",
+            "oracle": "the failing step must be answered SerializeRequests by BOTH bridges (serde_json fails the same way as bincode) and Ok by the typed core; the shell never sees those requests, so the twin's are dropped; a view that cannot be serialized must be answered SerializeView by both bridges while the typed core has one; every LATER step's bytes must decode (strictly, no trailing bytes) to exactly the twin's effects and view for that step",
+            "outcomes": serialize_outcomes,
+            "measured_on_this_tree": "the bridges register the requests of the batch BEFORE serializing it, and the entries stay in the registry after the SerializeRequests error although the shell was never given their ids; the occupancy oracle allows for exactly those entries",
+            "registry_entries_left_behind (summed over the explored histories that end in a failing batch)": undelivered_entries,
+            "cross_instance_checks": cross,
+        },
         "scale_family": {
             "what": "a FIXED, explicit list of long scripted histories, every one of them executed (enumeration of that list, no sampling), every step under the same oracle as the tree (outcome, decoded requests and view against the typed twin, ids of simultaneously outstanding requests pairwise distinct, registry one-shot entries == outstanding one-shots), both bridges",
             "why": "thresholds that hang on constants in the registry code (its slab starts with 1024 slots; 512 is half of it) are out of reach of the depth-bounded history tree",
